@@ -247,7 +247,7 @@ func runC13(rc *RunCtx) {
 	run := func(tag string, cfg parCfg) (*CmdOutcome, []parsedRec, string) {
 		dir := filepath.Join(rc.Dir, fmt.Sprintf("c%d-%s", rc.Index, tag))
 		os.MkdirAll(dir, 0755)
-		defer os.RemoveAll(dir)
+		defer cleanup(dir)
 		in := filepath.Join(dir, "in.fasta")
 		os.WriteFile(in, input, 0644)
 		args := []string{"--max-cpu", fmt.Sprint(cfg.MaxCPU), "--batch-size", fmt.Sprint(cfg.BatchSize)}
